@@ -3,6 +3,9 @@ ROOT = {"dir": "", "pkgname": "ipfscluster"}
 SPEC = {
     "go": [dict(ROOT, files=["root/rig_test.go", "root/rig_c04_test.go", "root/c04_test.go"], test="TestVerifC04",
                 n_quick=1500, n_thorough=12000, shards_quick=6, shards_thorough=16)],
+    "gen": ["C04Guards"],
+    "force": ["Proofs/C04_Guards.v"],
+    "diag": True,
     "rule": "generated: histories of 1..12 (+3) Pin / PinPath / PinUpdate / Unpin / UnpinPath / RPC-Pin calls over 7 CIDs; options "
             "re-used per CID with single-field changes (metadata key added / removed / changed, name, mode, factors, expiry, origins, "
             "user allocations, update source); 6 peers x metric tables switched during the history; default factors incl. -1 and invalid; "
@@ -14,7 +17,9 @@ SPEC = {
                 "harness/root/rig_test.go: monitor fake = real metrics.Store + PeersetFilter",
                 "error classes are read off error identity / message substrings by the harness"],
     "level_text": "Theorems (Props/C04.v, all closed) over the Gallina transcription of pin / setupPin / PinOptions.Equals / Unpin / unpinClusterDag / PinUpdate for every state, call, environment and map-iteration order; the transcription is compared with the real code call by call on generated histories at every run, and the implementation's own observations are checked against the boolean form of the property. Monitor theorems (Proofs/C04_Monitor.v): the model's answer to every call passes spec_okb at every point of every history (inputs: metadata a map, allocations a set, one metric per peer); absence of code 2 on a successful pin / unpin / update implies the Prop-level clause (entry = request as the property reads options, nothing else changed, allocation kept / as named / C03's alloc_spec)",
-    "level_note": "model tied to code by differential testing (generator-bounded); consensus commits assumed to succeed (C01/C02); clock kept >= 1 h away from every expiry",
+    "level_note": "the guard chains of setupReplicationFactor / isReplicationFactorValid, checkPinType, setupPin, pin, Unpin, PinUpdate (conditions, order, outcome: refuse <class> / redirect / shortcut / commit) are TRANSLATED from the source at every run "
+                  "(Gen/C04Guards.v) and proved equal to the model's lists, whose interpretation is proved to be the decision of step (c04_guards_source_is_model, c04_*_guards_are_step); the rest of the "
+                  "model (PinOptions.Equals, allocation, the meta-pin unpin, what a commit stores) is tied to code by differential testing (generator-bounded); consensus commits assumed to succeed (C01/C02); clock kept >= 1 h away from every expiry",
     "assumptions": ["LogPin / LogUnpin succeed and act as a map update (C01, C02)", "metadata keys are unique (Go map); the empty metadata key is ignored by PinOptions.Equals by design",
                     "one latest metric per peer (C09)"],
 }
